@@ -70,8 +70,37 @@ def _cmp(cs, level, field, cls, got, want, ctx, reader, eq=None):
         cs.violation(key, sig, {"got": repr(got)[:200], "want": repr(want)[:200], **ctx})
 
 
+def _contracts_under_repo_tests(cs):
+    """I11: the repository's own test suite with icontract postconditions on the real classes (once per run)"""
+    import json
+    import subprocess
+
+    from .. import env
+
+    out = os.path.join(cs.dir(), "contracts.json")
+    e = dict(os.environ)
+    e.update({"PYTHONPATH": env.REPO + os.pathsep + env.VERIF, "VF_CONTRACT_OUT": out, "PYTHONDONTWRITEBYTECODE": "1"})
+    p = subprocess.run([env.PY, "-m", "pytest", "-q", "-x", "-p", "no:cacheprovider", "-p", "vf.pytest_monitors", os.path.join(env.REPO, "tests")], cwd=env.REPO, env=e, stdout=subprocess.PIPE, stderr=subprocess.STDOUT, timeout=900)
+    try:
+        res = json.load(open(out))
+    except Exception:
+        cs.count("contracts_not_evaluated")
+        return
+    if res["counts"].get("icontract_missing"):
+        cs.count("contracts_not_evaluated")  # ./check setup installs icontract into .deps/ (informational monitor)
+        return
+    for k, v in res["counts"].items():
+        cs.count("contract_evaluations:" + k, v)
+    cs.evaluated()
+    cs.cls("contracts", "repo-tests")
+    if res["violations"]:
+        cs.violation("contract-broken-under-repo-tests", {"kind": "icontract", "which": sorted({v[0] for v in res["violations"]})}, {"violations": res["violations"][:5], "tail": p.stdout.decode("utf-8", "replace")[-400:]})
+
+
 def run_case(cs):
     rng = cs.rng
+    if cs.seed_str.endswith(":0"):
+        _contracts_under_repo_tests(cs)
     k = rng.random()
     if k < 0.55:
         _model_manifest(cs)
